@@ -105,8 +105,9 @@ class Assume(Item):
 
     skip = True
 
-    def __init__(self, formula, name="assume"):
+    def __init__(self, formula, name="assume", check=None):
         self.formula, self.name = formula, name
+        self.check = check  # optional python predicate over {item name: concrete value}: does a concrete input satisfy it?
 
     def symbolic(self, I):
         I.path.assume(self.formula)
@@ -442,3 +443,28 @@ class StabState(Item):
 
     def jsonable(self, conc):
         return self.inner.jsonable(conc)
+
+
+class ListOf(Item):
+    """a Python list of fixed length whose elements are described by other items (e.g. a list of tableaux)"""
+
+    def __init__(self, name, items):
+        self.name, self.items = name, list(items)
+
+    def symbolic(self, I):
+        return [it.symbolic(I) for it in self.items]
+
+    def concrete(self, model, env):
+        return [it.concrete(model, env) for it in self.items]
+
+    def random(self, rng, env):
+        return [it.random(rng, env) for it in self.items]
+
+    def real(self, conc):
+        return [it.real(c) for it, c in zip(self.items, conc)]
+
+    def const(self, I, conc):
+        return [it.const(I, c) for it, c in zip(self.items, conc)]
+
+    def jsonable(self, conc):
+        return [it.jsonable(c) for it, c in zip(self.items, conc)]
